@@ -83,7 +83,14 @@ def r1(chk, prog, f):
     P = Paths(f, prog)
     allocas = [i for i in f.instrs() if i.op == "alloca"]
     n = 0
+    params = {nm for t, nm in f.params if nm is not None}
     for a in allocas:
+        # the cursor kept in memory (its address is handed to a helper): initialised in the entry block from the input-pointer
+        # parameter, i.e. re-seeded from the argument on every call - the same exemption as for the cursor held in a register
+        seeds = [i for i in f.entry.instrs if i.op == "store" and i.ops[1].kind == "reg" and i.ops[1].v == a.res]
+        if seeds and all(i.ops[0].kind == "reg" and i.ops[0].v in params and i.ops[0].type.endswith("*") for i in seeds) \
+                and a.type.startswith("i8*"):
+            continue
         n += 1
         # address uses: direct loads/stores and calls receiving the address (callee reads/writes through it)
         regs = {a.res}
